@@ -1,17 +1,25 @@
 #!/bin/sh
-# Every finding's replay must fail on the pinned tree and pass on the repaired one.
+# Every finding's replay must fail on the tree just before its repair (the parent of the
+# "fix:" commit named in known_findings.json; the pinned tree for known, unrepaired findings)
+# and pass on the current, repaired tree.
 set -u
 cd "$(dirname "$0")/.."
 PIN=$(git -C /repo rev-list --max-parents=0 HEAD)
-WT=/tmp/dawn-pinned-$$
-git -C /repo worktree add -q --detach "$WT" "$PIN" || exit 2
-trap 'git -C /repo worktree remove --force "$WT"' EXIT
 rc=0
 for f in findings/*.json; do
   prop=$(python3 -c "import json,sys;print(json.load(open('$f'))['property'])")
-  VERIF_REPO="$WT" ./check "$prop" --replay "$f" >/dev/null 2>&1; old=$?
-  ./check "$prop" --replay "$f" >/dev/null 2>&1; new=$?
-  echo "$f pinned=$old repaired=$new"
+  commit=$(python3 -c "
+import json
+for e in json.load(open('known_findings.json'))['findings']:
+    if e.get('replay')=='$f' and e.get('status')=='fixed': print(e['commit'])")
+  base=$PIN
+  [ -n "$commit" ] && base="$commit^"
+  WT=/tmp/dawn-before-$$
+  git -C /repo worktree add -q --detach "$WT" "$base" || exit 2
+  VERIF_REPO="$WT" VERIF_EVIDENCE_DIR=/tmp/verif-findings-evidence ./check "$prop" --replay "$f" >/dev/null 2>&1; old=$?
+  git -C /repo worktree remove --force "$WT"
+  VERIF_EVIDENCE_DIR=/tmp/verif-findings-evidence ./check "$prop" --replay "$f" >/dev/null 2>&1; new=$?
+  echo "$f before-fix($base)=$old repaired=$new"
   case "$(basename $f)" in
     K*) [ "$new" = 1 ] || rc=1 ;;   # known, not repaired: still reproduces
     *)  [ "$old" = 1 ] && [ "$new" = 0 ] || rc=1 ;;
